@@ -150,9 +150,23 @@ def readTx (payload : Bytes) : Option (ATx × WfReport × Item) := do
     let refs ← (match lookupInt b 18 with | some x => readTxIns x | none => some [])
     let net ← (match lookupInt b 15 with | some x => x.asInt?.map some | none => some none)
     let donation ← (match lookupInt b 22 with | some x => x.asInt?.map some | none => some none)
+    -- certificates: `[9, [0|1, credential], [0, drep key hash]]` (vote delegation, the only kind the compiler writes)
     let certs ← (match lookupInt b 4 with
-      | some x => do let xs ← x.asSet?; some xs.length
-      | none => some 0)
+      | some x => do
+        let xs ← x.asSet?
+        xs.mapM fun c => do
+          match ← c.asArray? with
+          | [tag, cred, drep] => do
+            if (← tag.asInt?) != 9 then none
+            match ← cred.asArray?, ← drep.asArray? with
+            | [k, h], [dk, dh] => do
+              if (← dk.asInt?) != 0 then none
+              let k ← k.asInt?
+              if k != 0 && k != 1 then none
+              some ({ credIsScript := k = 1, cred := ← h.asBytes?, drep := ← dh.asBytes? } : Cert)
+            | _, _ => none
+          | _ => none
+      | none => some [])
     let w ← wits.asMap?
     let redeemers ← (match lookupInt w 5 with | some x => readRedeemers x | none => some [])
     let scriptsOf (k : Int) : Option (List Bytes) :=
